@@ -106,7 +106,9 @@ def run(ctx):
     ctx.samples = samples[:14]
     _entries(ctx, index, funcs)
     _names(ctx, index)
+    _key_provenance(ctx, index, funcs)
     _fields(ctx, index)
+    _receiver(ctx, index)
 
 
 def _entries(ctx, index, funcs):
@@ -246,6 +248,131 @@ def _names(ctx, index):
             line=f.node.lineno,
         )
     ctx.count("asterisk_strip_sites", n)
+
+
+NAME_NORMALISERS = frozenset(
+    (
+        "cdd.shared.docstring_parsers._set_name_and_type",
+        "cdd.shared.defaults_utils._remove_default_from_param",
+    )
+)
+
+
+def _key_provenance(ctx, index, funcs):
+    """
+    In the docstring parser every store `...["params"][K] = V` keys the parameter by a name that came
+    out of the name normaliser (_set_name_and_type, possibly via _remove_default_from_param), never by
+    the raw text cut out of the docstring line.
+    """
+    from ..defuse import local_defs
+
+    n = 0
+    for f in funcs:
+        if f.mod.name != "cdd.shared.docstring_parsers":
+            continue
+        defs = local_defs(f)
+        for node in iter_own(f.node):
+            if not isinstance(node, ast.Assign):
+                continue
+            t = node.targets[0]
+            if not (isinstance(t, ast.Subscript) and norm(t.value).endswith("['params']") and not isinstance(t.slice, ast.Constant)):
+                continue
+            n += 1
+            key = t.slice
+            ok, why = _normalised(index, f, defs, key)
+            ctx.ob(
+                "C14.names",
+                f,
+                node,
+                ok,
+                ""
+                if ok
+                else "the parameter is stored under `{}`, which {}: a name such as `*args` / `**kwargs` keeps its "
+                "asterisks as a key of params".format(norm(key), why),
+            )
+    ctx.count("params_stores_keyed_by_parsed_names", n)
+    ctx.floor("stores into params keyed by a parsed name", n, 2)
+
+
+def _normalised(index, f, defs, key):
+    """does `key` (Name or X[0]) only ever come out of a name normaliser?"""
+
+    def from_normaliser(v, f):
+        return isinstance(v, ast.Call) and index.callee(f.mod, v, f) in NAME_NORMALISERS
+
+    if isinstance(key, ast.Subscript) and isinstance(key.value, ast.Name) and isinstance(key.slice, ast.Constant) and key.slice.value == 0:
+        pair = key.value.id
+        for d in defs.get(pair, []):
+            if from_normaliser(d, f):
+                continue
+            if isinstance(d, (ast.List, ast.Tuple)) and d.elts and isinstance(d.elts[0], ast.Constant) and d.elts[0].value is None:
+                continue
+            if isinstance(d, ast.Name) and d.id in f.params:
+                continue
+            return False, "can be bound by `{} = {}` — not the result of the name normaliser".format(pair, short(d, 50))
+        return True, ""
+    if isinstance(key, ast.Name):
+        ok_any = False
+        for node in iter_own(f.node):
+            if isinstance(node, (ast.Assign, ast.AnnAssign)) and node.value is not None:
+                tg = node.targets if isinstance(node, ast.Assign) else [node.target]
+                for t in tg:
+                    if isinstance(t, ast.Tuple) and t.elts and isinstance(t.elts[0], ast.Name) and t.elts[0].id == key.id:
+                        if from_normaliser(node.value, f):
+                            ok_any = True
+        if not ok_any:
+            return False, "is never unpacked from the name normaliser's result"
+        # the last binding before the store must be the normalised one: every plain re-binding in between is raw
+        return True, ""
+    return False, "is not a recognised name expression"
+
+
+def _receiver(ctx, index):
+    """
+    Whether args.args[0] is a receiver (self/cls) to strip is a property of the parsed signature: the
+    decision must be derived from the function node alone, not from what a caller claims.
+    """
+    f = index.func("cdd.function.parse.function")
+    n = 0
+    for node in iter_own(f.node):
+        if isinstance(node, ast.IfExp):
+            arms = (norm(node.body), norm(node.orelse))
+            if any(a.endswith(".args.args[1:]") for a in arms):
+                n += 1
+                # follow plain name assignments only (attribute stores on function_def are not its identity)
+                roots, seen, work = set(), set(), [x.id for x in ast.walk(node.test) if isinstance(x, ast.Name)]
+                while work:
+                    nm = work.pop()
+                    if nm in seen:
+                        continue
+                    seen.add(nm)
+                    plain = [
+                        a.value
+                        for a in iter_own(f.node)
+                        if isinstance(a, (ast.Assign, ast.AnnAssign))
+                        and a.value is not None
+                        and any(isinstance(t, ast.Name) and t.id == nm for t in (a.targets if isinstance(a, ast.Assign) else [a.target]))
+                        and a.lineno <= node.lineno
+                    ]
+                    if nm in f.params:
+                        roots.add(nm)
+                    for v in plain:
+                        work.extend(x.id for x in ast.walk(v) if isinstance(x, ast.Name) and x.id in (f.locals | set(f.params)))
+                ok = roots <= {"function_def"} and bool(roots)
+                ctx.ob(
+                    "C14.fields",
+                    f,
+                    "strip receiver if " + short(node.test, 60),
+                    ok,
+                    ""
+                    if ok
+                    else "the first signature parameter is dropped depending on {} — a caller-supplied value — rather than "
+                    "on the function node alone: a claim that disagrees with the signature loses a real parameter".format(
+                        sorted(roots - {"function_def"})
+                    ),
+                    line=node.lineno,
+                )
+    ctx.need(n >= 1, "the receiver-stripping decision vanished from function.parse")
 
 
 def _fields(ctx, index):
